@@ -217,7 +217,9 @@ class SuperSpeedEndpointMultiplexer(Elaboratable):
         for interface in self._interfaces:
             any_generate_signal_asserted = (
                 interface.handshakes_out.send_ack   |
-                interface.handshakes_out.send_stall
+                interface.handshakes_out.send_stall |
+                interface.handshakes_out.send_nrdy  |
+                interface.handshakes_out.send_erdy
             )
 
             # If the given interface is trying to send an handshake, connect it up
